@@ -14,10 +14,11 @@ import Driver.Mesh
 import Driver.FailureProb
 import Driver.WoehlerAnalysis
 import Driver.Assessment
+import Driver.PRAJ
 open PylifeVerif.Driver
 
 /-- All handlers; the first that recognises the op answers. -/
-def handlers : List (List String → Option String) := [handleRainflow, handleHCM, handleFkmNonlinear, handleWoehler, handleCollective, handleEquistress, handleMiner, handleMaterialLaws, handleBroadcast, handleMeanstress, handleVmap, handleNotch, handleMesh, handleFailureProb, handleWoehlerAnalysis, handleAssessment]
+def handlers : List (List String → Option String) := [handleRainflow, handleHCM, handleFkmNonlinear, handleWoehler, handleCollective, handleEquistress, handleMiner, handleMaterialLaws, handleBroadcast, handleMeanstress, handleVmap, handleNotch, handleMesh, handleFailureProb, handleWoehlerAnalysis, handleAssessment, handlePRAJ]
 
 def answer (line : String) : String :=
   let toks := (line.splitOn " ").filter (· ≠ "")
